@@ -50,7 +50,10 @@ def closed_subset(r, decls, p=0.4):
     idx = set(i for i in range(len(decls)) if r.random() < p)
     if not idx:
         idx = {r.randrange(len(decls))}
-    names = {d["name"]: i for i, d in enumerate(decls) if d["kind"] in ("struct", "enum")}
+    names = {}
+    for i, d in enumerate(decls):
+        if d["kind"] in ("struct", "enum"):
+            names.setdefault(d["name"], i)  # a name declared twice: the first declaration is the one uses refer to
     changed = True
     while changed:
         changed = False
